@@ -50,13 +50,15 @@ class Handle(_Events):
     assumptions = ('hooks, routing and the handler are opaque calls that may return or raise anything',
                    'str.encode("latin1") of a WSGI path succeeds; bytes.decode("utf8") raises only UnicodeDecodeError')
     expected_labels = ('F0.environ_bound_to_this_application', 'F4.request_and_response_initialised_first', 'H1.before_hooks_then_routing_then_handler',
-                       'H2.after_hooks_exactly_once', 'H3.responses_returned_failures_become_500', 'H3.only_interrupts_escape')
+                       'H2.after_hooks_exactly_once', 'H3.responses_returned_failures_become_500', 'H3.only_interrupts_escape',
+                       'F5.environ_without_PATH_INFO_escapes_before_any_per_request_state_is_used')
 
     def pre(self, X):
         g = X.globals
         self.HTTPResponse, self.HTTPError = g['HTTPResponse'], g['HTTPError']
         self.log = []
         self.errors_written = []
+        self.no_path_info = False
         c = self
 
         def req_init(X, args, kwargs):
@@ -108,6 +110,10 @@ class Handle(_Events):
         if obj is self.environ:
             k = z3.simplify(key.t).as_string()
             if k == 'PATH_INFO':
+                # PEP 3333 lets a server omit PATH_INFO when it is empty
+                if X.choose(2, 'environ has PATH_INFO?') == 1:
+                    self.no_path_info = True
+                    X.raise_(KeyError, 'PATH_INFO')
                 return X.fresh_str('PATH_INFO')
             if k == 'wsgi.errors':
                 return VObj('Errors', {})
@@ -177,6 +183,11 @@ class Handle(_Events):
         X.prove('H3.responses_returned_failures_become_500', z3.BoolVal(bool(ok)))
 
     def post_raise(self, X, exc):
+        if self.no_path_info and exc.pyclass is KeyError:
+            # nothing of this thread's request / response state has been re-initialised yet: the failure must leave through the
+            # stateless last-resort page of wsgi, not through an error page built from the previous request's objects
+            X.prove('F5.environ_without_PATH_INFO_escapes_before_any_per_request_state_is_used', z3.BoolVal(not self.log))
+            return
         self._common(X, 'raise', exc)
         X.prove('H3.only_interrupts_escape', z3.BoolVal(exc.pyclass is KeyboardInterrupt))
 
